@@ -73,6 +73,7 @@ type reqRun struct {
 	sent       int32
 	maxDelay   int
 	holdMs     int
+	noDrops    bool
 }
 
 func (rr *reqRun) script(a *fakecql.Attempt) fakecql.Outcome {
@@ -101,7 +102,7 @@ func (rr *reqRun) script(a *fakecql.Attempt) fakecql.Outcome {
 			switch v := rr.intn(10); {
 			case v < 2:
 				rr.prepFail.Store(a.Node.IP, "srverr")
-			case v < 3:
+			case v < 3 && !rr.noDrops:
 				rr.prepFail.Store(a.Node.IP, "drop")
 			}
 			return fakecql.Outcome{Kind: fakecql.Unprepared, Msg: &message.Unprepared{ErrorMessage: "unprepared " + a.Token, Id: ex.QueryId}}
@@ -270,6 +271,7 @@ type roundOpts struct {
 	override    bool // configure a write-consistency override that applies to every write of the workload
 	stallMs     int  // hold back the answer to one heartbeat per data connection for this long
 	holdMs      int  // hold back every scripted answer for this long (requests pile up on the connection)
+	noDrops     bool // no scripted connection drops at all (also not for re-PREPAREs)
 }
 
 func runRound(scs []*reqScenario, nodes, numConns, nclients, workers int, out string, st *reqStats, dropRate float64, salt int64, maxDelay int, ro roundOpts) error {
@@ -309,7 +311,7 @@ func runRound(scs []*reqScenario, nodes, numConns, nclients, workers int, out st
 		time.Sleep(150 * time.Millisecond)
 		t.Emit("Ready", "hosts", e.HostKeys(), "numconns", numConns)
 	}
-	rr := &reqRun{e: e, rnd: newRand(salt), maxDelay: maxDelay, holdMs: ro.holdMs}
+	rr := &reqRun{e: e, rnd: newRand(salt), maxDelay: maxDelay, holdMs: ro.holdMs, noDrops: ro.noDrops}
 	e.C.Script = rr.script
 	e.C.PrepareScript = func(a *fakecql.Attempt) fakecql.Outcome {
 		if v, ok := rr.prepFail.LoadAndDelete(a.Node.IP); ok {
@@ -553,7 +555,7 @@ func init() {
 				j = len(scs)
 			}
 			if err := runRound(scs[i:j], *nodes, *numConns, *nclients, *workers, *out, st, *dropRate, int64(k), *maxDelay,
-				roundOpts{compression: *compression, restarts: *restarts, addNode: *addNode, stallMs: *stallMs, holdMs: *holdMs, override: *override}); err != nil {
+				roundOpts{compression: *compression, restarts: *restarts, addNode: *addNode, stallMs: *stallMs, holdMs: *holdMs, override: *override, noDrops: *noDrops}); err != nil {
 				return err
 			}
 		}
